@@ -285,6 +285,8 @@ pub fn pool() -> Vec<RV> {
     v.push(RV::Tuple(vec![RV::Float(f64::NAN)]));
     v.push(RV::Tuple(vec![RV::Str("a".into()), RV::Bool(true), RV::Empty]));
     v.push(RV::Tuple(vec![RV::Empty, RV::Empty]));
+    v.push(RV::Tuple(vec![RV::Int(1), RV::Tuple(vec![RV::Int(2)])]));
+    v.push(RV::Tuple(vec![RV::Str("a".into()), RV::Int(2), RV::Float(1.5)]));
     v
 }
 
@@ -306,5 +308,59 @@ pub fn small_pool() -> Vec<RV> {
     v.push(RV::Tuple(vec![]));
     v.push(RV::Tuple(vec![RV::Int(1), RV::Int(2)]));
     v.push(RV::Tuple(vec![RV::Str("a".into()), RV::Float(1.5)]));
+    v
+}
+
+/// The thorough-tier pool: the edge pool plus every power of two with both neighbours, powers of ten,
+/// more float boundaries and more strings.
+pub fn big_pool() -> Vec<RV> {
+    let mut v = pool();
+    let mut push = |x: RV, v: &mut Vec<RV>| {
+        if !v.iter().any(|y| y.bits_eq(&x)) {
+            v.push(x);
+        }
+    };
+    for k in 0..63u32 {
+        let p = 1i64 << k;
+        for d in [-1i64, 0, 1] {
+            push(RV::Int(p + d), &mut v);
+            push(RV::Int(-(p + d)), &mut v);
+        }
+    }
+    let mut t = 1i64;
+    for _ in 0..18 {
+        t *= 10;
+        push(RV::Int(t), &mut v);
+        push(RV::Int(-t + 1), &mut v);
+    }
+    for f in [
+        4503599627370496.0f64,
+        4503599627370495.5,
+        9223372036854774784.0,
+        -9223372036854777856.0,
+        1e15,
+        1e16,
+        1e-300,
+        2.2250738585072011e-308,
+        0.30000000000000004,
+        123456.789,
+        -123456.789,
+        1e308,
+        -1e308,
+        7.0,
+        -7.0,
+        10.0,
+        0.25,
+    ] {
+        push(RV::Float(f), &mut v);
+    }
+    for s in ["A", "a ", "aa", "b", "Z", "é", "e\u{301}", "\n", "0", "1", "10", "9", "true", "()"] {
+        push(RV::Str(s.to_string()), &mut v);
+    }
+    push(RV::Tuple(vec![RV::Int(2), RV::Int(1)]), &mut v);
+    push(RV::Tuple(vec![RV::Float(f64::NAN), RV::Int(1)]), &mut v);
+    push(RV::Tuple(vec![RV::Float(0.0)]), &mut v);
+    push(RV::Tuple(vec![RV::Float(-0.0)]), &mut v);
+    push(RV::Tuple(vec![RV::Tuple(vec![]), RV::Tuple(vec![])]), &mut v);
     v
 }
